@@ -3,6 +3,7 @@ package main
 import (
 	"fmt"
 	"math/big"
+	"os"
 
 	"github.com/dominant-strategies/go-quai/common"
 	"github.com/dominant-strategies/go-quai/consensus/misc"
@@ -608,6 +609,12 @@ func (c *ctxT) runChain(cs Case) {
 		}
 		co := calcOrder(sc.ch, child)
 		total := sc.ch.hc.TotalLogEntropy(child)
+		if dump := os.Getenv("C09_DUMP_CHAIN"); dump != "" && i < 3 {
+			// development aid: the first links as Coq terms (used for the non-vacuity examples of Props/C09.v)
+			f, _ := os.OpenFile(dump, os.O_APPEND|os.O_CREATE|os.O_WRONLY, 0o644)
+			fmt.Fprintf(f, "(* link %d *)\nenv: %s\nparent: %s\nchild: %s\n", i, envCoq(&e, parentSpec), coqHeader(sc.ch, sc.p, parentSpec), coqHeader(sc.ch, child, childSpec))
+			f.Close()
+		}
 		if co.kind == "ok" && co.order == common.ZONE_CTX {
 			if total.Cmp(prevTotal) <= 0 {
 				c.rep.Fail("entropy:not-increasing", fmt.Sprintf("accumulated entropy does not increase at link %d of an accepted chain", i), cs)
